@@ -165,7 +165,12 @@ Connectors == {"custom", "default"}
    connected TcpStream with set_std_stream() as the last ("stream-last") or the first ("stream-first") setter of the chain.  The
    machine does not depend on it: what was requested must hold whichever way the settings were assembled. *)
 Vias == {"dial", "stream-last", "stream-first"}
-Cfgs == [mode : Modes, verify : BOOLEAN, connector : Connectors, timeout : Timeouts, via : Vias]
+(* host: the URL names the server by DNS name or by IP literal (the CA-signed leaf is valid for both, the wrong-name leaf for
+   neither); store: the trust store the default connector draws on - the system's, which does not know the test CA, or one that
+   contains it (SSL_CERT_FILE) *)
+AddrForms == {"name", "ip"}
+Stores == {"system", "withCA"}
+Cfgs == [mode : Modes, verify : BOOLEAN, connector : Connectors, timeout : Timeouts, via : Vias, host : AddrForms, store : Stores]
 
 Certs == {"trusted", "untrusted", "wrongName"}
 (* what the server does with the StartTLS request *)
@@ -187,9 +192,10 @@ ScriptFor(cfg, sc) ==
   /\ IF cfg.mode = "ldaps" THEN sc.resp = "na" /\ sc.inj \in {"none", "before"}
      ELSE sc.resp # "na" /\ (sc.inj # "none" => sc.resp = "success")
 
-(* The private test CA is known to the custom connector only; the default   *)
-(* connector uses the system trust store.                                   *)
-Trust(cfg, c) == c = "trusted" /\ cfg.connector = "custom"
+(* The private test CA is known to the custom connector; the default connector *)
+(* uses the trust store, which knows it only under store = "withCA".  A name   *)
+(* that does not match is never trusted, however the server is addressed.     *)
+Trust(cfg, c) == c = "trusted" /\ (cfg.connector = "custom" \/ cfg.store = "withCA")
 
 (* results allowed for the handshake stage *)
 HsResults(cfg, hs) ==
